@@ -12,7 +12,7 @@ pub const DEF: CheckDef = CheckDef {
     id: "C10",
     run,
     technique: "exhaustive enumeration of all ledgers of up to 3 transactions over an 8-transaction alphabet carrying holdings and price facts x target-precision contexts x targets x conversion strategies x report dates x date ranges; `Ledger::balance` with conversion runs on the real code and is compared with reference holdings converted by the brute-force price reference",
-    rule: "case = (precision of T, sequence of <= 3 (thorough 4) transactions from an 8-transaction alphabet over accounts {P,Q}, commodities {A,B,T} with costs giving direct, reverse-only and two-hop price chains); inside a case every target {A,B,T} x strategy {up-to-date at d1, d2, d3+1; historical} x 9 date ranges is queried, and the whole ledger is also run with all amounts x3 (linearity). states = distinct ledgers, transitions = converted balance queries compared. MUST: expected = sum of holdings (up-to-date: per account/commodity in range, at `now`; historical: per posting at its transaction date) converted by RefPrices, rounded only to the target's declared precision; MUST-FAIL iff a non-zero needed amount has no rate",
+    rule: "case = (precision of T, sequence of <= 4 (thorough 5) transactions from an 8-transaction alphabet over accounts {P,Q}, commodities {A,B,T} with costs giving direct, reverse-only and two-hop price chains); inside a case every target {A,B,T} x strategy {up-to-date at d1, d2, d3+1; historical} x 9 date ranges is queried, and the whole ledger is also run with all amounts x3 (linearity). states = distinct ledgers, transitions = converted balance queries compared. MUST: expected = sum of holdings (up-to-date: per account/commodity in range, at `now`; historical: per posting at its transaction date) converted by RefPrices, rounded only to the target's declared precision; MUST-FAIL iff a non-zero needed amount has no rate",
     assumptions: &[
         "price chains in the alphabet are unique for every needed pair; a query whose reference accept-set has more than one rate is DON'T-CARE",
         "values compared with relative tolerance 1e-13 (reciprocal rates are 28-digit decimals; exact rational difference when it fits 128 bits); when the target has a declared precision the result must be a multiple of it within half a unit of the exact value",
@@ -276,7 +276,7 @@ fn show(b: &Balances) -> String {
 fn run(ctx: &mut Ctx) {
     let alpha = alphabet();
     let n = alpha.len() as u64;
-    let maxlen = ctx.tier.pick(3u32, 4u32);
+    let maxlen = ctx.tier.pick(4u32, 5u32);
     for tprec in [None, Some(2u32), Some(0u32)] {
         for len in 1..=maxlen {
             for k in 0..n.pow(len) {
